@@ -185,7 +185,10 @@ fn ingest_step_keeps_j(qn: usize, max_queue_len: usize) {
         let i = if offered.actor == A { 0 } else { 1 };
         match w.bookie.map.get(&offered.actor) {
             None => false,
-            Some(b) => b.0.contains_all(CrsqlDbVersion(offered.v)..=CrsqlDbVersion(offered.v2), if offered.full { Some(&(CrsqlSeq(offered.s0)..=CrsqlSeq(offered.s1))) } else { None }),
+            Some(b) => {
+                let seq_range = CrsqlSeq(offered.s0)..=CrsqlSeq(offered.s1);
+                b.0.contains_all(CrsqlDbVersion(offered.v)..=CrsqlDbVersion(offered.v2), if offered.full { Some(&seq_range) } else { None })
+            }
         }
     };
     // was it suppressed / known BEFORE the step?
